@@ -107,6 +107,9 @@ ReaderAgrees == (phase = "done" /\ WellFormed) => (order = SemOrder /\ mainout =
 PositionalKept == (phase = "done" /\ \A k \in 1..Len(pairs) : pairs[k] = <<k, k - 1>>) => (order = Positional /\ mainout = n - 1)
 (* C05: the walk visits no position twice, whatever the pairs say (cycles, repeated ends) *)
 WalkBounded == phase = "walk" => (Len(order) <= n /\ \A j, k \in 1..Len(order) : j # k => order[j] # order[k])
+(* Folder._read infers the packed stream's index when there is exactly one: the in-streams no pair binds, in ascending order;  *)
+(* on a well-formed graph that is the coder the chain starts at                                                              *)
+PackedIsChainStart == (phase = "done" /\ WellFormed) => Starts = {SemOrder[1]}
 (* named deviation: ill-formed graphs are read in record order *)
 IllFormedPositional == (phase = "done" /\ ~WellFormed) => order = Positional
 Terminates == <>(phase = "done")
